@@ -134,9 +134,18 @@ func exec(p prog, c *hx.Case) error {
 	// parked notifications from the operator's alignment wait
 	var mu sync.Mutex
 	events := make(chan string, 64)
+	parkedNowMap := map[string]bool{} // maintained at the hook points themselves: who sits in the alignment wait right now
 	w.OnPoint = func(name string, args ...any) {
 		if name == "operator.align.parked" && len(args) > 0 {
+			mu.Lock()
+			parkedNowMap[args[0].(string)] = true
+			mu.Unlock()
 			events <- "parked:" + args[0].(string)
+		}
+		if name == "operator.align.released" && len(args) > 0 {
+			mu.Lock()
+			parkedNowMap[args[0].(string)] = false
+			mu.Unlock()
 		}
 	}
 	// acknowledgements: check the cut at the moment the job is told
@@ -260,29 +269,43 @@ func exec(p prog, c *hx.Case) error {
 			// others complete the pending checkpoint and stop there (no later
 			// checkpoint can complete without this runner's barrier).
 			var parkedNow []*senderState
+			mu.Lock()
 			for _, o := range st {
-				if o.inCall && o.parked {
+				if o.inCall && o.parked && parkedNowMap[o.id] {
 					parkedNow = append(parkedNow, o)
 				}
 			}
+			mu.Unlock()
 			if goneAt > 0 || len(parkedNow) == 0 {
 				continue
 			}
 			s := parkedNow[(-10-pick)%len(parkedNow)]
-			goneAt = s.barrier[s.next] // barriers this runner has delivered = the pending checkpoint
-			s.gone = true
-			s.seq = s.seq[:s.next+1]
+			pendingID := s.barrier[s.next] // barriers this runner has delivered = the pending checkpoint
+			// (the others go on up to, but not including, their barrier for the next checkpoint)
+			cuts := map[*senderState]int{}
+			possible := s.seq[s.next].Kind != "barrier"
 			for _, o := range st {
 				if o == s {
 					continue
 				}
-				// (everything up to, but not including, its barrier for the next checkpoint)
 				for i := range o.seq {
-					if o.seq[i].Kind == "barrier" && o.barrier[i] == goneAt {
-						o.seq = o.seq[:i]
+					if o.seq[i].Kind == "barrier" && o.barrier[i] == pendingID {
+						cuts[o] = i
+						if i < o.next || (o.inCall && i == o.next) {
+							possible = false // (that barrier is on its way already: the runner was not parked after all)
+						}
 						break
 					}
 				}
+			}
+			if !possible {
+				continue
+			}
+			goneAt = pendingID
+			s.gone = true
+			s.seq = s.seq[:s.next+1]
+			for o, i := range cuts {
+				o.seq = o.seq[:i]
 			}
 			s.cancel()
 			abandoned++
